@@ -69,8 +69,16 @@ class StubSock:
         return (self.ip, 40000)
 
 
+class _StubServer:
+    host = '127.0.0.1'
+    port = 8000
+    secure = False
+    display_banner = False
+
+
 def make_request(ip, method, path, headers):
-    req = Request(StubSock(ip), method, 'http', path, (1, 1), '', Headers(list(headers)))
+    # (the HTTP component passes its server; a request without Host header takes its host and port from there)
+    req = Request(StubSock(ip), method, 'http', path, (1, 1), '', Headers(list(headers)), _StubServer())
     return req, Response(req)
 
 
@@ -712,7 +720,7 @@ DOMAINS = {'a.example': 'a', 'b.example': 'b/sub', 'c.example': 'c'}
 GATEWAYS = [('list', []), ('list', ['10.0.0.1']), ('tuple', ['10.0.0.1', '10.0.0.2']), ('set', ['10.0.0.1']), ('none', None)]
 REMOTES = ['10.0.0.1', '10.0.0.2', '10.0.0.12', '192.168.0.9']
 XFHS = [None, 'b.example', 'B.example, c.example', 'c.example,b.example', ' b.example ', '', ', b.example', 'unknown.example']
-HOSTS = ['a.example', 'b.example', 'unknown.example']
+HOSTS = ['a.example', 'b.example', 'unknown.example', None, '']     # None: the request has no Host header at all (HTTP/1.0)
 PATHS = ['/', '/x', '/x/y/']
 
 
@@ -728,7 +736,7 @@ def route(g, remote, xfh, host, path):
     VirtualHosts(dict(DOMAINS), gateways_arg(g)).register(m)
     for _ in range(3):
         m.flush()
-    headers = [('Host', host)]
+    headers = [('Host', host)] if host is not None else []
     if xfh is not None:
         headers.append(('X-Forwarded-Host', xfh))
     req, res = make_request(remote, 'GET', path, headers)
